@@ -97,6 +97,7 @@ def run_jobs(jobs: list[Job], known: dict[str, list[str]], workdir: str) -> None
                         "known": known,
                         "prop": j.prop,
                         "engine": j.h.engine,
+                        "tier": j.tier,
                     },
                     f,
                 )
